@@ -95,8 +95,12 @@ hll_sketch_alloc<A>::hll_sketch_alloc(HllSketchImpl<A>* that) :
 
 template<typename A>
 hll_sketch_alloc<A>& hll_sketch_alloc<A>::operator=(const hll_sketch_alloc<A>& other) {
-  sketch_impl->get_deleter()(sketch_impl);
-  sketch_impl = other.sketch_impl->copy();
+  // copy first: other may be *this, and the copy may throw
+  HllSketchImpl<A>* copy = other.sketch_impl->copy();
+  if (sketch_impl != nullptr) { // null after this sketch was moved from
+    sketch_impl->get_deleter()(sketch_impl);
+  }
+  sketch_impl = copy;
   return *this;
 }
 
